@@ -10,6 +10,7 @@ From RPCX Require XClient.Breaker.
 From RPCX Require Client.ClientSM.
 From RPCX Require XClient.FailMode XClient.Multi XClient.Discovery.
 From RPCX Require Server.Dispatch.
+From RPCX Require Pool.Pool.
 Extraction Language OCaml.
 Extraction "model.ml"
   RoundRobin.rr_new RoundRobin.rr_run
@@ -27,4 +28,5 @@ Extraction "model.ml"
   FailMode.xcall
   Multi.broadcast Multi.fork Multi.inform
   Discovery.drun Discovery.drain Discovery.filter_servers
-  Dispatch.crun Dispatch.cinit.
+  Dispatch.crun Dispatch.cinit
+  Pool.find_get Pool.find_put Pool.class_size Pool.last_class.
